@@ -158,6 +158,30 @@ def Drain.run : Drain → List Nat → List (List Nat)
   | _, [] => []
   | d, a :: rest => let (out, d') := d.arrive a; out :: Drain.run d' rest
 
+/-! ## 2c. `activeAppendItems`: which prepared items are handed to the Appender
+
+  Mirrors the loop as coded: `active` stays a nil slice until the first inactive item, at which point the
+  prefix `items[:i]` is copied — but for i = 0 that copy is `append(nil, items[:0]...)`, which is STILL nil,
+  so the `active == nil` branch runs again at the next inactive item and copies `items[:i]` again. -/
+
+/-- flags: `true` = the item is inactive (context cancelled / deadline passed) -/
+def activeGo : List Bool → Nat → Option (List Nat) → Bool → List Nat
+  | [], n, active, filtered => if filtered then active.getD [] else List.range n
+  | true :: r, i, active, _ =>
+    activeGo r (i + 1) (match active with
+      | none => if i = 0 then none else some (List.range i)
+      | some a => some a) true
+  | false :: r, i, active, filtered =>
+    activeGo r (i + 1) (if filtered then some (active.getD [] ++ [i]) else active) filtered
+
+def activeItems (flags : List Bool) : List Nat := activeGo flags 0 none false
+
+/-- what it should be: the live items, in order -/
+def liveFrom : List Bool → Nat → List Nat
+  | [], _ => []
+  | true :: r, i => liveFrom r (i + 1)
+  | false :: r, i => i :: liveFrom r (i + 1)
+
 /-! ## 3. writer activation LTS
 
   Any number of submitter threads (SubmitLocal → enqueue), completion threads
